@@ -242,6 +242,32 @@ func checkC17(c *Check) {
 			add(BashCase{Key: "nested/" + k + "/func", Prog: SingleFile(inFn), CheckFS: true}, true)
 		}
 	}
+	// files that exist before the program starts: empty ones (lock and flag files), ones without a final line
+	// break, directories; and names / contents spelled with byte escapes next to the same bytes typed directly
+	{
+		pre := map[string]string{"empty.lock": "", "flag file": "", "one-line": "x\n", "unterminated": "tail", "only-newline": "\n", "sub/inner.lock": ""}
+		stmts := []Stmt{}
+		for _, n := range []string{"empty.lock", "flag file", "one-line", "unterminated", "only-newline", "sub/inner.lock", "sub", "missing", "empty.loc", "empty.lock2"} {
+			stmts = append(stmts, pr(sl(n), Exists{sl(n)}))
+		}
+		stmts = append(stmts, pr(framed(Read{sl("empty.lock")}), framed(Read{sl("unterminated")}), framed(Read{sl("only-newline")})),
+			fn("locked", []Param{{"p", TString}}, []Type{TBool}, ret(Exists{vr("p")})), pr(call("locked", sl("flag file")), call("locked", sl("sub/inner.lock")), call("locked", sl("nope"))),
+			ifs(Exists{sl("empty.lock")}, pr(sl("held"))), Write{Path: sl("empty.lock"), Data: sl("pid 1"), Append: bl(true)}, pr(framed(Read{sl("empty.lock")})), Write{Path: sl("flag file"), Data: sl("")}, pr(Exists{sl("flag file")}, framed(Read{sl("flag file")})))
+		cases = append(cases, BashCase{Key: "pre-existing/empty-and-unterminated-files", Prog: SingleFile(stmts), PreFiles: pre, PreDirs: []string{"sub"}, CheckFS: true, NonTrivial: nontrivial})
+		for mode := 1; mode <= 3; mode++ {
+			name := "caf\u00e9 \u2713.txt"
+			body := "gr\u00fc\u00dfe \u2713 \u00ff"
+			if mode == 3 {
+				name, body = "plain name.txt", "plain text"
+			}
+			esc := func(v string) Expr { return StrLit{V: v, Esc: mode} }
+			st := []Stmt{pr(Exists{esc(name)}), Write{Path: esc(name), Data: esc(body)}, pr(Exists{sl(name)}, Exists{esc(name)}), pr(framed(Read{sl(name)})), pr(cmp("==", Read{esc(name)}, sl(body)), cmp("==", esc(body), sl(body)), Len{esc(body)}),
+				Write{Path: sl(name), Data: esc(body), Append: bl(true)}, pr(framed(Read{esc(name)})), def("p", esc(name)), pr(cmp("==", vr("p"), sl(name)), Exists{vr("p")})}
+			cases = append(cases, BashCase{Key: fmt.Sprintf("byte-escapes/mode=%d/fresh", mode), Prog: SingleFile(st), CheckFS: true, NonTrivial: nontrivial})
+			// the file exists under the directly typed name before the program starts
+			cases = append(cases, BashCase{Key: fmt.Sprintf("byte-escapes/mode=%d/pre-existing", mode), Prog: SingleFile(st), PreFiles: map[string]string{name: "old\n"}, CheckFS: true, NonTrivial: nontrivial})
+		}
+	}
 	// histories
 	paths := []string{"one.txt", "two words.txt", "d/three.txt"}
 	type op struct {
